@@ -107,6 +107,7 @@ func extract(ctx context.Context, rs io.ReadSeeker, scanFunc func() osm.Scanner,
 		if _, err := rs.Seek(0, 0); err != nil {
 			return nil, err
 		}
+		verifPoint("pass.begin", 'p', 0)
 		scanner := scanFunc()
 		for scanner.Scan() {
 			objChan <- scanner.Object()
@@ -121,6 +122,7 @@ func extract(ctx context.Context, rs io.ReadSeeker, scanFunc func() osm.Scanner,
 		if err := eg.Wait(); err != nil {
 			return nil, err
 		}
+		verifPoint("pass.end", 'p', 0)
 	}
 	return o, nil
 }
@@ -271,14 +273,18 @@ func (o *Data) hasNeedRelation(id osm.RelationID) (has, need bool) {
 
 // If the node has the tag we want, add it to the list.
 func (o *Data) processNode(n *osm.Node, keep KeepFunc, keepTags bool) {
+	verifPoint("judge.begin", 'n', int64(n.ID))
+	defer verifPoint("judge.end", 'n', int64(n.ID))
 	hasNode, needNode := o.hasNeedNode(n.ID)
 	if hasNode {
 		return
 	}
 	if keep(o, n) || needNode {
+		verifPoint("store.before", 'n', int64(n.ID))
 		o.nodeMX.Lock()
 		o.Nodes[n.ID] = copyNode(n, keepTags)
 		o.nodeMX.Unlock()
+		verifPoint("store.after", 'n', int64(n.ID))
 	}
 }
 
@@ -297,14 +303,18 @@ func (o *Data) processNodeNoCopy(n *Node, keep KeepFunc, keepTags bool) {
 // If the way has the tag we want or if we've determined that it's
 // part of a relation that we want, store the way and the IDs of its dependent nodes.
 func (o *Data) processWay(w *osm.Way, keep KeepFunc, keepTags bool) (anotherPass bool) {
+	verifPoint("judge.begin", 'w', int64(w.ID))
+	defer verifPoint("judge.end", 'w', int64(w.ID))
 	hasWay, needWay := o.hasNeedWay(w.ID)
 	if hasWay {
 		return
 	}
 	if keep(o, w) || needWay {
+		verifPoint("store.before", 'w', int64(w.ID))
 		o.wayMX.Lock()
 		o.Ways[w.ID] = copyWay(w, keepTags)
 		o.wayMX.Unlock()
+		verifPoint("store.after", 'w', int64(w.ID))
 		for _, n := range w.Nodes {
 			if _, needNode := o.hasNeedNode(n.ID); !needNode {
 				o.dependentNodeMX.Lock()
@@ -341,14 +351,18 @@ func (o *Data) processWayNoCopy(w *Way, keep KeepFunc, keepTags bool) (anotherPa
 // members and set the flag for another pass through the file to
 // get the IDs for the dependent nodes, ways and other relations in the relation.
 func (o *Data) processRelation(r *osm.Relation, keep KeepFunc, keepTags bool) (anotherPass bool) {
+	verifPoint("judge.begin", 'r', int64(r.ID))
+	defer verifPoint("judge.end", 'r', int64(r.ID))
 	hasRelation, needRelation := o.hasNeedRelation(r.ID)
 	if hasRelation {
 		return
 	}
 	if keep(o, r) || needRelation {
+		verifPoint("store.before", 'r', int64(r.ID))
 		o.relationMX.Lock()
 		o.Relations[r.ID] = copyRelation(r, keepTags)
 		o.relationMX.Unlock()
+		verifPoint("store.after", 'r', int64(r.ID))
 		for _, m := range r.Members {
 			switch m.Type {
 			case osm.TypeNode:
